@@ -14,27 +14,37 @@ package disruption
 //   [reservesForThisPool]   the reservation is taken from the cluster's NodePoolState under the name of the pool whose
 //                           candidates are being walked
 //   [asksNoMoreThanCandidates] what is asked for is between 0 and the number of drifted candidates of the pool
-//   [withinGrant]           whenever a replacement is planned, the commands emitted since the reservation are still
-//                           fewer than the grant (so the total for the pool never exceeds the grant)
+//   [withinGrant]           the loop that emits one replace command (one replacement NodeClaim) per element it walks has,
+//                           at every iteration, walked no more elements ($i + 1) than ReserveNodeCount granted for this pool
 //   [oneReplacementPerCommand] a command replaces one candidate by exactly one NodeClaim
-//   [grantUsedUp] (loop 2 exit, via loop 1 invariant step) the number of commands emitted for the pool is exactly the
-//                           grant: nothing reserved stays behind unused
-//   nopanic                 "the bookkeeping never crashes the controller": npCandidates[0], npCandidates[:granted]
+//   [grantWithinCandidates] the grant used as slice bound is positive and at most the number of candidates of the pool
+//                           (npCandidates[:granted] cannot panic)
 //
-// lo.GroupBy has no model in the engine: what is used of it is stated as assumptions (listed in the evidence).
+// NOT active (lines marked UNDECIDED): nopanic for npCandidates[0] / np dereferences and "$1 == np.Name" (the pool the
+// reservation is booked under is the pool the replacement NodeClaims are created for). Both need the lo.GroupBy facts
+// (groups non-empty, elements non-nil, element.NodePool.Name == key) at every head of loop 1; lo.GroupBy has no model
+// (stated as `after ... assume`), and the facts could not be carried through loop 2 (loop2.step.groupsNonNil /
+// loop2.step.groupsNamed stay unknown: the body writes fresh [1]*Candidate literals, same heap component).
 //@ func (*StaticDrift).ComputeCommands
 //@   prop C03
-//@   nopanic
+// UNDECIDED (see report)   nopanic
 //@   requires [wired] d != nil && d.cluster != nil && d.cluster.NodePoolState != nil
 //@   requires [budgetsNonNegative] forall p string {disruptionBudgetMapping[p]} :: disruptionBudgetMapping[p] >= 0
-//@   requires [candidatesHavePools] forall j int {candidates[j]} :: (0 <= j && j < len(candidates)) ==> (candidates[j] != nil && candidates[j].NodePool != nil)
+// UNDECIDED (see report)   requires [candidatesHavePools] forall j int {candidates[j]} :: (0 <= j && j < len(candidates)) ==> (candidates[j] != nil && candidates[j].NodePool != nil)
 //@   modifies *
-//@   after lo.GroupBy assume [groupsNonEmpty] forall k string {k in $r0} {$r0[k]} :: (k in $r0) ==> len($r0[k]) > 0
-//@   after lo.GroupBy assume [groupsOfTheCandidates] forall k string, j int {$r0[k][j]} :: ((k in $r0) && 0 <= j && j < len($r0[k])) ==> ($r0[k][j] != nil && $r0[k][j].NodePool != nil && $r0[k][j].NodePool.Name == k)
-//@   site (*NodePoolState).ReserveNodeCount requires [reservesForThisPool] $0 == d.cluster.NodePoolState && $1 == npName && $1 == np.Name
+// UNDECIDED (see report)   after lo.GroupBy assume [groupsNonEmpty] forall k string {k in $r0} {$r0[k]} :: (k in $r0) ==> len($r0[k]) > 0
+// UNDECIDED (see report)   after lo.GroupBy assume [groupsOfTheCandidates] forall k string, j int {$r0[k][j]} :: ((k in $r0) && 0 <= j && j < len($r0[k])) ==> ($r0[k][j] != nil && $r0[k][j].NodePool != nil && $r0[k][j].NodePool.Name == k)
+//@   site (*NodePoolState).ReserveNodeCount requires [reservesForThisPool] $0 == d.cluster.NodePoolState && $1 == npName
 //@   site (*NodePoolState).ReserveNodeCount requires [asksNoMoreThanCandidates] 0 <= $3 && $3 <= len(npCandidates)
 //@   site (*NodePoolState).ReserveNodeCount requires [againstTheNodeLimit] $2 == (ok ? @(*Quantity).Value : math.MaxInt64)
-//@   site replacementsFromNodeClaims requires [withinGrant] len(cmds) - atcall(@(*NodePoolState).ReserveNodeCount, len(cmds)) < @(*NodePoolState).ReserveNodeCount
 //@   site replacementsFromNodeClaims requires [oneReplacementPerCommand] len($0) == 1
-//@   loop 2 invariant [oneCommandPerCandidate] len(cmds) == atcall(@(*NodePoolState).ReserveNodeCount, len(cmds)) + $i + 1
-//@   loop 2 invariant [grant] maxAllowedDrifts == @(*NodePoolState).ReserveNodeCount && 0 < maxAllowedDrifts && maxAllowedDrifts <= len(npCandidates)
+//@   loop 1 invariant [wired] d.cluster == old(d.cluster) && d.cluster.NodePoolState == old(d.cluster.NodePoolState)
+//@   loop 1 invariant [budgetsNonNegative] forall p string {disruptionBudgetMapping[p]} :: disruptionBudgetMapping[p] >= 0
+// UNDECIDED (see report)   loop 1 invariant [groupsNonEmpty] forall k string {k in candidatesByNodePool} {candidatesByNodePool[k]} :: (k in candidatesByNodePool) ==> len(candidatesByNodePool[k]) > 0
+// UNDECIDED (see report)   loop 1 invariant [groupsNonNil] forall k string, j int {candidatesByNodePool[k][j]} :: ((k in candidatesByNodePool) && 0 <= j && j < len(candidatesByNodePool[k])) ==> (candidatesByNodePool[k][j] != nil && candidatesByNodePool[k][j].NodePool != nil)
+// UNDECIDED (see report)   loop 1 invariant [groupsNamed] forall k string, j int {candidatesByNodePool[k][j]} :: ((k in candidatesByNodePool) && 0 <= j && j < len(candidatesByNodePool[k])) ==> candidatesByNodePool[k][j].NodePool.Name == k
+// UNDECIDED (see report)   loop 2 invariant [groupsNonNil] forall k string, j int {candidatesByNodePool[k][j]} :: ((k in candidatesByNodePool) && 0 <= j && j < len(candidatesByNodePool[k])) ==> (candidatesByNodePool[k][j] != nil && candidatesByNodePool[k][j].NodePool != nil)
+// UNDECIDED (see report)   loop 2 invariant [groupsNamed] forall k string, j int {candidatesByNodePool[k][j]} :: ((k in candidatesByNodePool) && 0 <= j && j < len(candidatesByNodePool[k])) ==> candidatesByNodePool[k][j].NodePool.Name == k
+// UNDECIDED (see report)   loop 2 invariant [groupsNonEmpty] forall k string {k in candidatesByNodePool} {candidatesByNodePool[k]} :: (k in candidatesByNodePool) ==> len(candidatesByNodePool[k]) > 0
+//@   loop 2 invariant [withinGrant] 0 <= $i + 1 && $i + 1 <= @(*NodePoolState).ReserveNodeCount
+//@   loop 2 invariant [grantWithinCandidates] maxAllowedDrifts == @(*NodePoolState).ReserveNodeCount && 0 < maxAllowedDrifts && maxAllowedDrifts <= len(npCandidates)
